@@ -10,7 +10,7 @@ Not decided: which shapes geometrically enclose a tag (can_fit's float test)."""
 import re
 
 from ..common import guards, short, where
-from ..exprs import mentions_deep, subst_closure, closure_of, format_parts, mentions, strip
+from ..exprs import simplify, mentions_deep, subst_closure, closure_of, format_parts, mentions, strip
 from ..grammar import GrammarError, load_parser_module
 from ..charset import Unknown
 from ..mirlib import Expr, Program, expr_str
@@ -95,78 +95,13 @@ def run(run):
         if not ok_shape:
             run.bad("C16.L1", "rule-shape", where(b), "legend_css is not `css_styles.iter().map(format).collect().join(\"\\n\")`: %s" % (
                 expr_str(rets[0])[:160] if rets else "?"))
-    # ---------------- L2 legend cut
+    # ---------------- L2 legend cut (path-sensitive; helpers of the conversion spliced in, so `if let` nests, `?`,
+    # combinator closures turned helpers and a `split_legend` function all have the same three paths)
     cf = prog.method("from", r"cell_buffer::CellBuffer$", r"From<&str>")
     if not cf:
         run.missing("C16.L2", "From<&str> for CellBuffer")
     else:
-        ex = Expr(prog, cf)
-        b = prog.bodies[cf]
-        finds = [t for _, t in prog.calls(cf) if Program.callee_name(t).endswith("str::<impl str>::find")]
-        legend_const = None
-        for t in finds:
-            a = strip(ex.operand(t["args"][1]))
-            if a[0] == "const":
-                legend_const = a[2]
-        if legend_const == "# Legend:":
-            run.ok("C16.L2", "legend starts at input.find(\"# Legend:\")", where(finds[0]))
-        else:
-            run.bad("C16.L2", "legend-marker", where(b), "the legend marker searched for is %r" % (legend_const,))
-        is_find = lambda z: z[0] == "call" and z[1].endswith("str::<impl str>::find")
-        sb_calls = [(bid, t) for bid, t in prog.calls(cf) if re.search(r"StringBuffer as core::convert::From<&str>>::from$", Program.callee_name(t))]
-        parse_calls = [(bid, t) for bid, t in prog.calls(cf) if Program.callee_name(t).endswith("parser::parse_css_legend")]
-        # the parse may sit in a closure handed to a combinator on the find result:
-        # `input.find(..).and_then(|loc| parse_css_legend(&input[loc..]).ok().map(|css| (loc, css)))`
-        closure_parse = None
-        if not parse_calls:
-            for q in prog.closures_of(cf):
-                for cbid, ct in prog.calls(q):
-                    if Program.callee_name(ct).endswith("parser::parse_css_legend"):
-                        for bid, t in prog.calls(cf):
-                            for a in t["args"]:
-                                cl_, caps_ = closure_of(strip(ex.operand(a)))
-                                if cl_ == q and re.search(r"Option::<T>::(and_then|map)$", Program.callee_name(t)):
-                                    recv = ex.operand(t["args"][0])
-                                    payload = ("field", recv, ("@Some", "0"))
-                                    closure_parse = (bid, t, subst_closure(Expr(prog, q).operand(ct["args"][0]), caps_, (payload,)))
-            if closure_parse:
-                parse_calls = [(closure_parse[0], closure_parse[1])]
-        add_calls = [(bid, t) for bid, t in prog.calls(cf) if Program.callee_name(t).endswith("CellBuffer::add_css_styles")]
-        cut, whole = [], []
-        for bid, t in sb_calls:
-            a = strip(ex.operand(t["args"][0]))
-            if a == ("param", 1, ()):
-                whole.append((bid, t))
-            elif a[0] == "call" and "Index" in a[1] and strip(a[2][0]) == ("param", 1, ()):
-                rng = strip(a[2][1])
-                if rng[0] == "agg" and str(rng[1]).endswith("RangeTo") and mentions(rng, is_find):
-                    cut.append((bid, t))
-        if len(cut) == 1 and len(whole) == 1 and len(sb_calls) == 2:
-            run.ok("C16.L2", "drawing input is input[..legend_start] when the legend parses, the whole input otherwise", where(cut[0][1]))
-        else:
-            run.bad("C16.L2", "legend-cut", where(b), "expected one StringBuffer::from(&input[..loc]) and one StringBuffer::from(input); found %d cut / %d whole / %d total" % (
-                len(cut), len(whole), len(sb_calls)))
-        # the cut branch is taken exactly when parse_css_legend returned Ok, and its entries are added
-        if len(parse_calls) == 1 and len(add_calls) == 1:
-            pa = strip(closure_parse[2]) if closure_parse else strip(ex.operand(parse_calls[0][1]["args"][0]))
-            if pa[0] == "call" and "Index" in pa[1] and str(strip(pa[2][1])[1]).endswith("RangeFrom") and mentions(pa, is_find):
-                run.ok("C16.L2", "legend parser receives input[legend_start..]", where(parse_calls[0][1]))
-            else:
-                run.bad("C16.L2", "legend-parse-input", where(parse_calls[0][1]), "parse_css_legend receives %s" % expr_str(pa)[:100])
-            aa = ex.operand(add_calls[0][1]["args"][1])
-            if mentions_deep(prog, aa, lambda z: z[0] == "call" and z[1].endswith("parser::parse_css_legend")):
-                run.ok("C16.L2", "parsed entries become the css styles", where(add_calls[0][1]))
-            else:
-                run.bad("C16.L2", "legend-entries-dropped", where(add_calls[0][1]), "add_css_styles does not receive the parse result")
-            if cut:
-                gs = guards(prog, cf, cut[0][0])
-                on_ok = any(mentions_deep(prog, c, lambda z: z[0] == "call" and z[1].endswith("parser::parse_css_legend")) for c, tk, sw in gs)
-                if on_ok:
-                    run.ok("C16.L2", "the cut is control-dependent on the legend parse result", where(cut[0][1]))
-                else:
-                    run.bad("C16.L2", "legend-cut-unconditional", where(cut[0][1]), "the input is cut at `# Legend:` without regard to the parse result")
-        else:
-            run.bad("C16.L2", "legend-parse-shape", where(b), "expected one parse_css_legend and one add_css_styles call (found %d / %d)" % (len(parse_calls), len(add_calls)))
+        l2_paths(run, cf) or l2_shape(run, cf)
     # ---------------- L3 grammar witnesses
     g, mod, gfile = load_parser_module(run)
     if g is None:
@@ -351,6 +286,180 @@ def run(run):
 
 run_flow = run
 
+
+
+def l2_shape(run, cf):
+    """the original shape-based form of L2 (kept as fallback when the body is not loop-free)"""
+    prog = run.prog
+    ex = Expr(prog, cf)
+    b = prog.bodies[cf]
+    finds = [t for _, t in prog.calls(cf) if Program.callee_name(t).endswith("str::<impl str>::find")]
+    legend_const = None
+    for t in finds:
+        a = strip(ex.operand(t["args"][1]))
+        if a[0] == "const":
+            legend_const = a[2]
+    if legend_const == "# Legend:":
+        run.ok("C16.L2", "legend starts at input.find(\"# Legend:\")", where(finds[0]))
+    else:
+        run.bad("C16.L2", "legend-marker", where(b), "the legend marker searched for is %r" % (legend_const,))
+    is_find = lambda z: z[0] == "call" and z[1].endswith("str::<impl str>::find")
+    sb_calls = [(bid, t) for bid, t in prog.calls(cf) if re.search(r"StringBuffer as core::convert::From<&str>>::from$", Program.callee_name(t))]
+    parse_calls = [(bid, t) for bid, t in prog.calls(cf) if Program.callee_name(t).endswith("parser::parse_css_legend")]
+    # the parse may sit in a closure handed to a combinator on the find result:
+    # `input.find(..).and_then(|loc| parse_css_legend(&input[loc..]).ok().map(|css| (loc, css)))`
+    closure_parse = None
+    if not parse_calls:
+        for q in prog.closures_of(cf):
+            for cbid, ct in prog.calls(q):
+                if Program.callee_name(ct).endswith("parser::parse_css_legend"):
+                    for bid, t in prog.calls(cf):
+                        for a in t["args"]:
+                            cl_, caps_ = closure_of(strip(ex.operand(a)))
+                            if cl_ == q and re.search(r"Option::<T>::(and_then|map)$", Program.callee_name(t)):
+                                recv = ex.operand(t["args"][0])
+                                payload = ("field", recv, ("@Some", "0"))
+                                closure_parse = (bid, t, subst_closure(Expr(prog, q).operand(ct["args"][0]), caps_, (payload,)))
+        if closure_parse:
+            parse_calls = [(closure_parse[0], closure_parse[1])]
+    add_calls = [(bid, t) for bid, t in prog.calls(cf) if Program.callee_name(t).endswith("CellBuffer::add_css_styles")]
+    cut, whole = [], []
+    for bid, t in sb_calls:
+        a = strip(ex.operand(t["args"][0]))
+        if a == ("param", 1, ()):
+            whole.append((bid, t))
+        elif a[0] == "call" and "Index" in a[1] and strip(a[2][0]) == ("param", 1, ()):
+            rng = strip(a[2][1])
+            if rng[0] == "agg" and str(rng[1]).endswith("RangeTo") and mentions(rng, is_find):
+                cut.append((bid, t))
+    if len(cut) == 1 and len(whole) == 1 and len(sb_calls) == 2:
+        run.ok("C16.L2", "drawing input is input[..legend_start] when the legend parses, the whole input otherwise", where(cut[0][1]))
+    else:
+        run.bad("C16.L2", "legend-cut", where(b), "expected one StringBuffer::from(&input[..loc]) and one StringBuffer::from(input); found %d cut / %d whole / %d total" % (
+            len(cut), len(whole), len(sb_calls)))
+    # the cut branch is taken exactly when parse_css_legend returned Ok, and its entries are added
+    if len(parse_calls) == 1 and len(add_calls) == 1:
+        pa = strip(closure_parse[2]) if closure_parse else strip(ex.operand(parse_calls[0][1]["args"][0]))
+        if pa[0] == "call" and "Index" in pa[1] and str(strip(pa[2][1])[1]).endswith("RangeFrom") and mentions(pa, is_find):
+            run.ok("C16.L2", "legend parser receives input[legend_start..]", where(parse_calls[0][1]))
+        else:
+            run.bad("C16.L2", "legend-parse-input", where(parse_calls[0][1]), "parse_css_legend receives %s" % expr_str(pa)[:100])
+        aa = ex.operand(add_calls[0][1]["args"][1])
+        if mentions_deep(prog, aa, lambda z: z[0] == "call" and z[1].endswith("parser::parse_css_legend")):
+            run.ok("C16.L2", "parsed entries become the css styles", where(add_calls[0][1]))
+        else:
+            run.bad("C16.L2", "legend-entries-dropped", where(add_calls[0][1]), "add_css_styles does not receive the parse result")
+        if cut:
+            gs = guards(prog, cf, cut[0][0])
+            on_ok = any(mentions_deep(prog, c, lambda z: z[0] == "call" and z[1].endswith("parser::parse_css_legend")) for c, tk, sw in gs)
+            if on_ok:
+                run.ok("C16.L2", "the cut is control-dependent on the legend parse result", where(cut[0][1]))
+            else:
+                run.bad("C16.L2", "legend-cut-unconditional", where(cut[0][1]), "the input is cut at `# Legend:` without regard to the parse result")
+    else:
+        run.bad("C16.L2", "legend-parse-shape", where(b), "expected one parse_css_legend and one add_css_styles call (found %d / %d)" % (len(parse_calls), len(add_calls)))
+
+
+
+def l2_paths(run, cf):
+    """L2 decided on the feasible paths of From<&str>: (1) no `# Legend:` -> the whole input is drawn; (2) marker found and
+    the legend parses -> input[..marker] is drawn and the parsed entries are added; (3) marker found but the legend does
+    not parse -> the whole input is drawn and nothing is added.  Returns True if it reached a verdict."""
+    from ..mirlib import paths as mir_paths
+    prog = run.prog
+    prog.inline_single_use_helpers(cf, allow_option=True, same_file=True, skip=r"::(escape_line|add_css_styles)$")
+    ps = mir_paths(prog, cf, with_calls=True)
+    if not ps:
+        return False
+    is_find = lambda z: z[0] == "call" and z[1].endswith("str::<impl str>::find")
+    is_parse = lambda z: z[0] == "call" and z[1].endswith("parser::parse_css_legend")
+
+    def state(conds, pred):
+        st = None
+        for c, tk in conds:
+            c = strip(c)
+            if c[0] != "discr" or not mentions(c, pred):
+                continue
+            inner = strip(c[1])
+            via_branch = inner[0] == "call" and inner[1].endswith("Try>::branch")
+            target = strip(inner[2][0]) if via_branch else inner
+            through_ok = False
+            while target[0] == "call" and re.search(r"Result::<T, E>::ok$", target[1]) and target[2]:
+                target = strip(target[2][0])
+                through_ok = True
+            if not pred(target):
+                continue
+            one = tk in (1, ("not", (0,)))
+            zero = tk in (0, ("not", (1,)))
+            if via_branch:
+                st = "yes" if zero else "no" if one else st     # Continue = present / Ok
+            elif pred is is_find:
+                st = "yes" if one else "no" if zero else st     # Option: Some = 1
+            elif through_ok:
+                st = "yes" if one else "no" if zero else st     # .ok(): Some = 1
+            else:
+                st = "yes" if zero else "no" if one else st     # Result: Ok = 0
+        return st
+
+    marker = set()
+    n_legend = n_plain = 0
+    problems = []
+    for conds, ret, calls in ps:
+        f, pz = state(conds, is_find), state(conds, is_parse)
+        for c in calls:
+            if is_find(c) and len(c[2]) == 2 and strip(c[2][1])[0] == "const":
+                marker.add(strip(c[2][1])[2])
+        sbs = [c for c in calls if re.search(r"StringBuffer as core::convert::From<&str>>::from$", c[1])]
+        adds = [c for c in calls if c[1].endswith("CellBuffer::add_css_styles")]
+        if len(sbs) != 1:
+            problems.append("a path draws %d texts" % len(sbs))
+            continue
+        drawn = strip(simplify(sbs[0][2][0]))
+        while drawn[0] == "call" and re.search(r"[dD]eref>?::deref$|::as_str$|::as_ref$|::borrow$", drawn[1]) and drawn[2]:
+            drawn = strip(drawn[2][0])
+        whole = drawn == ("param", 1, ())
+        loc_ok = lambda e: mentions(e, lambda z: z[0] == "field" and "@Some" in z[2] and is_find(strip(z[1])) and strip(strip(z[1])[2][0]) == ("param", 1, ()))
+        cut = (drawn[0] == "call" and "Index" in drawn[1] and strip(drawn[2][0]) == ("param", 1, ()) and strip(drawn[2][1])[0] == "agg" and
+               str(strip(drawn[2][1])[1]).endswith("RangeTo") and loc_ok(drawn[2][1])) or \
+              (drawn[0] == "field" and tuple(drawn[2])[-1:] == ("0",) and strip(drawn[1])[0] == "call" and strip(drawn[1])[1].endswith("str::<impl str>::split_at") and
+               strip(strip(drawn[1])[2][0]) == ("param", 1, ()) and loc_ok(strip(drawn[1])[2][1]))
+        parsed_added = any(mentions(a[2][1], is_parse) for a in adds if len(a[2]) == 2)
+        # (a path that adds a value without the parse result, e.g. an empty vec, adds nothing)
+        legend_path = f == "yes" and pz == "yes"
+        if legend_path:
+            n_legend += 1
+            # the parser got the text from the marker on
+            pcs = [c for c in calls if is_parse(c)]
+            parg = strip(simplify(pcs[0][2][0])) if pcs else ("unknown",)
+            from_marker = (parg[0] == "call" and "Index" in parg[1] and strip(parg[2][0]) == ("param", 1, ()) and str(strip(parg[2][1])[1]).endswith("RangeFrom") and loc_ok(parg[2][1])) or \
+                (parg[0] == "field" and tuple(parg[2])[-1:] == ("1",) and strip(parg[1])[0] == "call" and strip(parg[1])[1].endswith("str::<impl str>::split_at") and loc_ok(strip(parg[1])[2][1]))
+            if not cut:
+                problems.append("with a well-formed legend the text drawn is `%s`, not the input up to the marker" % expr_str(drawn)[:80])
+            if not parsed_added:
+                problems.append("with a well-formed legend the parsed entries are not added to the css styles")
+            if not from_marker:
+                problems.append("the legend parser receives `%s`, not the input from the marker on" % expr_str(parg)[:80])
+        else:
+            n_plain += 1
+            if not whole:
+                problems.append("without a (well-formed) legend (marker %s, parse %s) the text drawn is `%s`, not the whole input" % (f, pz, expr_str(drawn)[:80]))
+            if parsed_added:
+                problems.append("css entries are added on a path where the legend did not parse")
+    if marker != {"# Legend:"}:
+        problems.append("the legend marker searched for is %r" % sorted(marker))
+    if n_legend < 1 or n_plain < 2:
+        problems.append("expected the three cases no marker / legend parses / legend does not parse, found %d legend and %d plain paths" % (n_legend, n_plain))
+    b = prog.bodies[cf]
+    if n_legend == 0:
+        return False   # the legend path is not visible at this level (e.g. inside a combinator closure): shape rule decides
+    if problems:
+        run.bad("C16.L2", "legend-cut", where(b), "; ".join(sorted(set(problems)))[:400])
+    else:
+        run.ok("C16.L2", "legend starts at input.find(\"# Legend:\")", where(b))
+        run.ok("C16.L2", "drawing input is input[..legend_start] when the legend parses, the whole input otherwise (3 feasible paths)", where(b))
+        run.ok("C16.L2", "legend parser receives input[legend_start..]; parsed entries become the css styles", where(b))
+        run.ok("C16.L2", "the cut is control-dependent on the legend parse result", where(b))
+    return True
 
 def thorough(run):
     """bounded-exhaustive comparison of the extracted identifier / tag / legend-entry grammars with the language the
